@@ -127,7 +127,7 @@ func mSegs(s []byte) []seg {
 			i += n
 		case c == '-' && len(t) > 0 && t[0] == '-':
 			n := 0
-			for i+n < len(s) && s[i+n] != '\n' {
+			for i+n < len(s) && s[i+n] != '\n' && s[i+n] != '\r' {
 				n++
 			}
 			out = append(out, seg{'l', s[i : i+n]})
@@ -228,9 +228,6 @@ func sBlock(t []byte) int {
 			return len(t)
 		}
 		if t[i] == '*' && t[i+1] == '/' {
-			if len(t)-(i+2) <= 1 {
-				return len(t)
-			}
 			return i + 2
 		}
 		i++
@@ -303,19 +300,17 @@ const (
 	kEInIdent         = 7
 	kDollarAfterDigit = 8
 	kEAfterDigit      = 10
-	kCrEndsLineM      = 11
 	kLiteralLeft      = 20
 	kCrEndsLine       = 21
 	kNested           = 22
-	kByteAfterBlock   = 23
 	kLookalike        = 30
 )
 
 var className = map[int]string{
 	0: "inside-K", kDollarInIdent: "dollar-in-identifier",
 	kEInIdent: "e-in-nonascii-identifier", kDollarAfterDigit: "dollar-after-digit",
-	kEAfterDigit: "estring-after-digit", kCrEndsLineM: "cr-ends-line-comment", kLiteralLeft: "literal-left", kCrEndsLine: "cr-ends-line-comment",
-	kNested: "nested-block-comment", kByteAfterBlock: "byte-after-block-comment", kLookalike: "placeholder-lookalike",
+	kEAfterDigit: "estring-after-digit", kLiteralLeft: "literal-left", kCrEndsLine: "cr-ends-line-comment",
+	kNested: "nested-block-comment", kLookalike: "placeholder-lookalike",
 }
 
 func hasPair(a, b byte, o []byte) bool {
@@ -337,8 +332,7 @@ func kClassM(s []byte) int {
 			prev = s[i-1]
 		}
 		t := s[i+1:]
-		k, n, id := lTok(inId, s, i)
-		rest := s[i+n:]
+		_, n, id := lTok(inId, s, i)
 		code := 0
 		switch {
 		case inId && isIdCont(c):
@@ -359,10 +353,6 @@ func kClassM(s []byte) int {
 		case c == '$':
 			if _, ok := tagScan(lTagStart, lTagCont, t); ok && isIdentByte(prev) {
 				code = kDollarAfterDigit
-			}
-		case k == 'l':
-			if len(rest) > 0 && rest[0] == '\r' {
-				code = kCrEndsLineM
 			}
 		}
 		if code != 0 {
@@ -391,9 +381,6 @@ func kClassS(s []byte) int {
 		case 'b':
 			if len(tok) > 2 && hasPair('/', '*', tok[2:]) {
 				return kNested
-			}
-			if len(rest) == 1 {
-				return kByteAfterBlock
 			}
 		}
 		i += n
